@@ -592,6 +592,7 @@ static void handle(char *line) {
     if (g_journal) jmark("open-end %d", rc);
     if (rc != LDB_OK) { g_db = NULL; if (prevcmp) { g_opt = prev; g_cmpname = prevcmp; g_fold = prevfold; } } }
     flush_bg_events();
+    if (rc == LDB_OK) printf("opts mfs=%llu\n", (unsigned long long)g_opt.max_file_size);
     printf("open %d cmp=%s\n", rc, g_cmpname);
     if (g_db && g_faultmode) { t_nofault++; printf("recovered %llu ", (unsigned long long)g_db->versions->last_sequence); dump_internal(g_db); fputc('\n', stdout); t_nofault--; }
     if (g_journal) jprint_new();
